@@ -100,6 +100,25 @@ def r2(ctx: Ctx) -> None:
     if a != b:
         d = diff_paths(tuple(b), tuple(a))
         ctx.report(f.where, f"closed[xy] {d[0][:200] if d else ''}", "the x part and the y part of the box constraints are not mirror images", lineno=f.node.lineno, differences=d)
+    # the monotonicity chains link every pair of consecutive grid coordinates
+    for axis, coords, (lil, big), prev in [("x", "xcoords", (lx, bx), "prev_x"), ("y", "ycoords", (ly, by), "prev_y")]:
+        cl = ("a", CAR, coords)
+        want_iter = ("c", ("g", "range"), (k_num(1), ("c", ("g", "len"), (cl,), ())), ())
+        chains = [lp for lp in first if lp[2] == want_iter]
+        ctx.site(f.where, f"{axis} chain covers all consecutive coordinates: range(1, len({coords}))", found=len(chains))
+        ok = False
+        for lp in chains:
+            i = lp[1]
+            cur = ("s", cl, i)
+            prv = ("s", ("a", CAR, prev), cur)
+
+            def imp(a, b):
+                return ("expr", ("c", ("a", SM, "imply"), (("list", (a,)), b), ()))
+            if {imp(("s", big, prv), ("s", big, cur)), imp(("s", lil, cur), ("s", lil, prv))} <= set(lp[3]):
+                ok = True
+        if not ok:
+            ctx.report(f.where, f"chain-cover {axis}", f"the {axis} interval variables are not chained over every consecutive pair of grid coordinates "
+                       f"(big[prev] => big[cur] and lil[cur] => lil[prev] for i in range(1, len({coords}))): a box can then consist of detached columns/rows", lineno=f.node.lineno)
     # per cell: low <-> high
     per_cell = [lp for lp in first if lp[2] == ("a", CAR, "blocks")]
     ctx.require(len(per_cell) == 2, "enforce_bb: the two per-cell loops were not found")
@@ -309,3 +328,17 @@ def r4(ctx: Ctx) -> None:
     want = {0: "min", 1: "min", 2: "max", 3: "max"}
     if {k: v[0] for k, v in projs.items()} != want or any(v[1] is not None and v[1] != k for k, v in projs.items()):
         ctx.report(g.where, f"bbox-update {projs}", "the bounding box of a box's cells is not (min x1, min y1, max x2, max y2) position by position", lineno=g.node.lineno)
+
+
+# The search returns a shape "iff one exists" only if the cost bound and the at-least-one constraints are encoded
+# exactly: the structural rules of the encoding layer (C07) are therefore part of this property as well.
+from . import C07 as _c07
+
+
+@rule("C08", "R5.encoding-layer", "SHARED(C07)",
+      "the pseudo-Boolean / SAT layer the search posts its bound through is encoded exactly: encode-or-refuse, diagram "
+      "translation, diagram construction (leaf tests, if/else propagation) -- the C07 rules R1, R2, R8 evaluated for C08", floor=10)
+def r5(ctx: Ctx) -> None:
+    _c07.r1(ctx)
+    _c07.r2(ctx)
+    _c07.r8(ctx)
